@@ -1,9 +1,10 @@
 #!/bin/sh
 # usage: seedtest.sh <patch.diff> <ID> [tier]  — applies a seeded change to /repo, runs the check, reverts.
 P=$1; ID=$2; TIER=${3:-quick}
+[ -f "$(dirname $P)/patch.rebased.diff" ] && P="$(dirname $P)/patch.rebased.diff"
 cd /repo || exit 2
 if ! git diff --quiet; then echo "repo dirty"; exit 2; fi
-git apply "$P" || git apply -3 "$P" || { echo "patch does not apply"; exit 2; }
+git apply "$P" || { echo "patch does not apply"; git reset -q --hard HEAD; exit 2; }
 git -C /repo diff --stat | tail -1
 cd /verif && ./check $ID $TIER 2>/tmp/seedtest.err | grep -E "VIOLATION|KNOWN" | head -5; rc=$?
 grep -E "^--- " /tmp/seedtest.err | head -5
